@@ -73,6 +73,7 @@ const (
 	lkLd
 	lkVec
 	lkIVec
+	lkBVec  // []bool
 	lkWork  // work paired with a following lwork
 	lkLwork // lwork
 	lkScalar
@@ -119,6 +120,9 @@ type lroutine struct {
 	ok    func(e *lenv) bool // relations between the dimensions of a valid call
 	empty func(e *lenv) bool // no slice length is demanded (default: some dimension is 0)
 	dims  []int              // default menu of the dimensions
+	// noMinLwork: the documented minimum of lwork is only a necessary condition
+	// (nested routines need more); valid bases use the query optimum and -1 only.
+	noMinLwork bool
 	// noWorkFaultOnEmpty: len(work) is only examined for non-empty problems.
 	pos map[string]int
 }
@@ -151,6 +155,7 @@ func row(name string, parts ...[]larg) *lroutine {
 func (r *lroutine) where(ok func(e *lenv) bool) *lroutine  { r.ok = ok; return r }
 func (r *lroutine) emptyIf(f func(e *lenv) bool) *lroutine { r.empty = f; return r }
 func (r *lroutine) menu(d ...int) *lroutine                { r.dims = d; return r }
+func (r *lroutine) optLworkOnly() *lroutine                { r.noMinLwork = true; return r }
 
 // mod applies f to the argument called name.
 func (r *lroutine) mod(name string, f func(a *larg)) *lroutine {
@@ -207,6 +212,10 @@ func ivec(name string, length efn, msg string) []larg {
 	return []larg{{kind: lkIVec, name: name, length: length, msg: msg, init: func(_ *lenv, i int) int { return i }}}
 }
 
+func bvecEq(name string, length efn, msg string) []larg {
+	return []larg{{kind: lkBVec, name: name, length: length, exact: true, msg: msg}}
+}
+
 func ivecEq(name string, length efn, msg string) []larg {
 	return []larg{{kind: lkIVec, name: name, length: length, exact: true, msg: msg, init: func(_ *lenv, i int) int { return i }}}
 }
@@ -256,7 +265,7 @@ func newLMethod(impl reflect.Value, r *lroutine) *lmethod {
 			continue
 		case lkDim, lkInt, lkLd, lkLwork:
 			want = reflect.Int
-		case lkMat, lkVec, lkIVec, lkWork:
+		case lkMat, lkVec, lkIVec, lkBVec, lkWork:
 			want = reflect.Slice
 		case lkScalar:
 			want = reflect.Float64
@@ -288,11 +297,12 @@ type lfault struct {
 	alt   []string
 	label string
 	kind  string
+	first bool // member of the pair menu (one value per argument)
 }
 
 type lstats struct {
-	valid, guard, single int64
-	kinds                map[string]bool
+	valid, guard, single, pair int64
+	kinds                      map[string]bool
 }
 
 // needOf returns the minimal length of slice argument i in environment e (lds and lwork set).
@@ -311,7 +321,7 @@ func (lm *lmethod) needOf(e *lenv, i int) int {
 			return 0
 		}
 		return (rows-1)*e.g(a.ld) + cols
-	case lkVec, lkIVec:
+	case lkVec, lkIVec, lkBVec:
 		return imax(0, a.length(e))
 	case lkWork:
 		return imax(1, e.g("lwork"))
@@ -409,7 +419,7 @@ const (
 )
 
 // runBase runs one valid base (flags, dims in e.v; ld deltas; lwork mode) and its faults.
-func (lm *lmethod) runBase(t failer, e *lenv, ldDelta []int, mode int, st *lstats) {
+func (lm *lmethod) runBase(t failer, e *lenv, ldDelta []int, mode int, pairs bool, st *lstats) {
 	r := lm.r
 	// derived integers, leading dimensions, lwork
 	for _, a := range r.args {
@@ -442,7 +452,7 @@ func (lm *lmethod) runBase(t failer, e *lenv, ldDelta []int, mode int, st *lstat
 					opt = int(w[0])
 				}
 			}
-			if opt == min {
+			if opt == min && !r.noMinLwork {
 				return // same base as lwMin
 			}
 			e.v["lwork"] = opt
@@ -491,23 +501,36 @@ func (lm *lmethod) runBase(t failer, e *lenv, ldDelta []int, mode int, st *lstat
 	}
 	restoreAll()
 
-	// 2. guard pages
-	for _, atEnd := range []bool{true, false} {
-		gin, _, _ := lm.build(e, &atEnd)
+	// 2. guard pages: all slices end-aligned, all start-aligned, and for at most
+	// three slice arguments every mixed placement.
+	nsl := 0
+	for _, a := range r.args {
+		switch a.kind {
+		case lkMat, lkVec, lkIVec, lkBVec, lkWork:
+			nsl++
+		}
+	}
+	masks := []int{0, 1<<nsl - 1}
+	if nsl <= 3 {
+		masks = masks[:0]
+		for m := 0; m < 1<<nsl; m++ {
+			masks = append(masks, m)
+		}
+	}
+	if nsl == 0 {
+		masks = nil
+	}
+	for _, mask := range masks {
+		mask := mask
+		gin, _, _ := lm.buildPlaced(e, func(k int) bool { return mask>>k&1 == 0 })
 		_, pe := invoke(lm.m, gin)
 		st.guard++
 		if o := classify(pe, isLapackMsg); o.class != pcNone {
-			place := "ending at a PROT_NONE page"
-			if !atEnd {
-				place = "starting right after a PROT_NONE page"
-			}
 			cl := "valid-call-panics"
 			if o.class == pcFault {
 				cl = "memory-fault"
-			} else if r.name == "Dlarfb" && e.g("k") == 0 && o.class == pcRuntime {
-				cl = "dlarfb-k0-panics"
 			}
-			t.FailClass(cl, "%s with every slice %s: %s", lm.describe(gin), place, o)
+			t.FailClass(cl, "%s with the slices on guard pages (placement mask %b over the slice arguments in order, 0 = ends at a PROT_NONE page, 1 = starts right after one): %s", lm.describe(gin), mask, o)
 		}
 	}
 
@@ -523,34 +546,34 @@ func (lm *lmethod) runBase(t failer, e *lenv, ldDelta []int, mode int, st *lstat
 		switch a.kind {
 		case lkFlag:
 			for _, b := range []byte{0, '?'} {
-				add(lfault{pos: i, val: flagValue(a.ftype, b), n: -1, msg: a.msg, alt: a.alt, label: fmt.Sprintf("%s=%d", a.name, b), kind: "flag"})
+				add(lfault{pos: i, val: flagValue(a.ftype, b), n: -1, msg: a.msg, alt: a.alt, label: fmt.Sprintf("%s=%d", a.name, b), kind: "flag", first: b == 0})
 			}
 		case lkDim:
 			if !a.noNeg {
-				add(lfault{pos: i, val: reflect.ValueOf(-1), n: -1, msg: a.msg, alt: a.alt, label: a.name + "=-1", kind: "dim"})
+				add(lfault{pos: i, val: reflect.ValueOf(-1), n: -1, msg: a.msg, alt: a.alt, label: a.name + "=-1", kind: "dim", first: true})
 			}
 		case lkLd:
 			if query && a.skipQuery {
 				continue
 			}
 			min := a.min(e)
-			add(lfault{pos: i, val: reflect.ValueOf(min - 1), n: -1, msg: a.msg, alt: a.alt, label: fmt.Sprintf("%s=%d", a.name, min-1), kind: "ld"})
-		case lkMat, lkVec, lkIVec:
+			add(lfault{pos: i, val: reflect.ValueOf(min - 1), n: -1, msg: a.msg, alt: a.alt, label: fmt.Sprintf("%s=%d", a.name, min-1), kind: "ld", first: true})
+		case lkMat, lkVec, lkIVec, lkBVec:
 			if empty || query || lens[i] == 0 {
-				if (a.kind == lkVec || a.kind == lkIVec) && a.exact && !empty && !query {
+				if a.kind != lkMat && a.exact && !empty && !query && (a.used == nil || a.used(e)) {
 					add(lfault{pos: i, val: regs[i].slice(1), n: 1, msg: a.msg, alt: a.alt, label: fmt.Sprintf("len(%s)=1", a.name), kind: "long"})
 				}
 				continue
 			}
-			add(lfault{pos: i, val: regs[i].slice(lens[i] - 1), n: lens[i] - 1, msg: a.msg, alt: a.alt, label: fmt.Sprintf("len(%s)=%d", a.name, lens[i]-1), kind: "short"})
+			add(lfault{pos: i, val: regs[i].slice(lens[i] - 1), n: lens[i] - 1, msg: a.msg, alt: a.alt, label: fmt.Sprintf("len(%s)=%d", a.name, lens[i]-1), kind: "short", first: true})
 			if a.exact {
 				add(lfault{pos: i, val: regs[i].slice(lens[i] + 1), n: lens[i] + 1, msg: a.msg, alt: a.alt, label: fmt.Sprintf("len(%s)=%d", a.name, lens[i]+1), kind: "long"})
 			}
 		case lkWork:
-			add(lfault{pos: i, val: regs[i].slice(lens[i] - 1), n: lens[i] - 1, msg: a.msg, alt: a.alt, label: fmt.Sprintf("len(work)=%d", lens[i]-1), kind: "work"})
+			add(lfault{pos: i, val: regs[i].slice(lens[i] - 1), n: lens[i] - 1, msg: a.msg, alt: a.alt, label: fmt.Sprintf("len(work)=%d", lens[i]-1), kind: "work", first: true})
 		case lkLwork:
-			if mode == lwMin {
-				add(lfault{pos: i, val: reflect.ValueOf(a.min(e) - 1), n: -1, msg: a.msg, alt: a.alt, label: fmt.Sprintf("lwork=%d", a.min(e)-1), kind: "lwork"})
+			if mode == lwMin || (r.noMinLwork && mode == lwOpt) {
+				add(lfault{pos: i, val: reflect.ValueOf(a.min(e) - 1), n: -1, msg: a.msg, alt: a.alt, label: fmt.Sprintf("lwork=%d", a.min(e)-1), kind: "lwork", first: true})
 				add(lfault{pos: i, val: reflect.ValueOf(-2), n: -1, msg: a.msg, alt: a.alt, label: "lwork=-2", kind: "lwork"})
 			}
 		}
@@ -601,11 +624,76 @@ func (lm *lmethod) runBase(t failer, e *lenv, ldDelta []int, mode int, st *lstat
 		unchanged(cls("write-before-validate"), what, cur)
 		in[f.pos] = old
 	}
+
+	// 4. all pairs of faults on different arguments (one value per argument):
+	// a package panic, never a runtime.Error, nothing written.
+	if !pairs {
+		return
+	}
+	for i := range fs {
+		if !fs[i].first {
+			continue
+		}
+		for j := i + 1; j < len(fs); j++ {
+			if !fs[j].first || fs[j].pos == fs[i].pos {
+				continue
+			}
+			f, g := &fs[i], &fs[j]
+			oldf, oldg := in[f.pos], in[g.pos]
+			in[f.pos], in[g.pos] = f.val, g.val
+			copy(cur, lens)
+			if f.n >= 0 {
+				cur[f.pos] = f.n
+			}
+			if g.n >= 0 {
+				cur[g.pos] = g.n
+			}
+			_, pe := invoke(lm.m, in)
+			st.pair++
+			o := classify(pe, isLapackMsg)
+			what := fmt.Sprintf("%s [double fault %s, %s]", lm.describe(in), f.label, g.label)
+			known := lapackFinding(r.name, r.args[f.pos].name, f.kind, o)
+			if known == "" {
+				known = lapackFinding(r.name, r.args[g.pos].name, g.kind, o)
+			}
+			cls := func(generic string) string {
+				if known != "" {
+					return known
+				}
+				return generic
+			}
+			switch o.class {
+			case pcNone:
+				t.FailClass(cls("invalid-accepted"), "%s: returned normally, want a package panic", what)
+				restoreAll()
+			case pcFault:
+				t.FailClass("memory-fault", "%s: %s, want a package panic", what, o)
+			case pcRuntime:
+				t.FailClass(cls("runtime-error-for-invalid"), "%s: %s, want a package panic", what, o)
+			case pcOther:
+				t.FailClass(cls("foreign-panic"), "%s: %s, want a package panic", what, o)
+			}
+			unchanged(cls("write-before-validate"), what, cur)
+			in[f.pos], in[g.pos] = oldf, oldg
+		}
+	}
 }
 
 // build lays out all slices (on the heap with guard elements, or on guard
 // pages when atEnd != nil) and assembles the argument list.
 func (lm *lmethod) build(e *lenv, atEnd *bool) (in []reflect.Value, regs []*region, lens []int) {
+	if atEnd == nil {
+		return lm.buildPlaced(e, nil)
+	}
+	if *atEnd {
+		return lm.buildPlaced(e, func(int) bool { return true })
+	}
+	return lm.buildPlaced(e, func(int) bool { return false })
+}
+
+// buildPlaced is build with a placement function: place(k) says whether the
+// k-th slice argument ends at a PROT_NONE page (true) or starts after one.
+func (lm *lmethod) buildPlaced(e *lenv, place func(k int) bool) (in []reflect.Value, regs []*region, lens []int) {
 	r := lm.r
 	in = make([]reflect.Value, len(r.args))
 	regs = make([]*region, len(r.args))
@@ -622,28 +710,35 @@ func (lm *lmethod) build(e *lenv, atEnd *bool) (in []reflect.Value, regs []*regi
 			in[i] = reflect.ValueOf(a.fval)
 		case lkBool:
 			in[i] = reflect.ValueOf(a.bval)
-		case lkMat, lkVec, lkWork, lkIVec:
+		case lkMat, lkVec, lkWork, lkIVec, lkBVec:
 			n := lm.needOf(e, i)
 			lens[i] = n
 			p := D
 			if a.kind == lkIVec {
 				p = I
+			} else if a.kind == lkBVec {
+				p = Bo
 			}
 			var sl reflect.Value
-			if atEnd == nil {
+			if place == nil {
 				reg := newHeapRegionN(p, n+2)
 				reg.fill(i)
 				regs[i] = reg
 				sl = reg.slice(n)
 			} else {
 				b := getGuardN(gi, 8*n+64)
+				sl = typedSlice(p, b.place(p, n, place(gi)), n)
 				gi++
-				sl = typedSlice(p, b.place(p, n, *atEnd), n)
 			}
 			if p == I {
 				s := sl.Interface().([]int)
 				for j := range s {
 					s[j] = a.init(e, j)
+				}
+			} else if p == Bo {
+				s := sl.Interface().([]bool)
+				for j := range s {
+					s[j] = true
 				}
 			} else {
 				s := sl.Interface().([]float64)
@@ -683,6 +778,8 @@ func lapackFinding(routine, arg, kind string, o outcome) string {
 		return "lapack-query-empty-work-index-panic"
 	case o.class != pcPackage:
 		return ""
+	case (routine == "Dggsvd3" || routine == "Dggsvp3") && arg == "iwork" && o.msg == "lapack: insufficient length of work":
+		return "dggsv-iwork-wrong-message"
 	case routine == "Dgesv" && arg == "a" && o.msg == "lapack: insufficient length of ab",
 		routine == "Dlange" && arg == "a" && o.msg == "lapack: bad leading dimension of A",
 		routine == "Dlarft" && arg == "ldt" && o.msg == "lapack: insufficient length of t",
